@@ -4,7 +4,7 @@
 set -e
 REPO=${1:-${VERIF_REPO:-/repo}}
 V=$(cd "$(dirname "$0")" && pwd)
-B=$V/.build
+B=${VERIF_BUILD:-$V/.build}
 export GOFLAGS=-mod=mod GOPROXY=off GOSUMDB=off GOTOOLCHAIN=local GOCACHE=$V/.cache/go-build
 mkdir -p $B $V/.cache
 GO=go1.26.8
